@@ -300,7 +300,7 @@ func c08Enum() {
 			}
 		}
 	}
-	c08Elems = len(AwkwardValues) * 4
+	c08Elems = len(AwkwardValues) * 5
 }
 
 func c08BuildIdx(k c08IdxCase) (stackage.Stack, *ListModel, stackage.Stack) {
@@ -637,11 +637,8 @@ func condBattery(cd stackage.Condition) (where, msg, site string) {
 
 // element part: the awkward value as element / expression / comparand in four roles
 func c08RunElem(c *core.Ctx, n int) {
-	aw := AwkwardValues[n/4]
-	role := []string{"pushed", "inserted+replaced", "condition-expression", "comparand-pair"}[n%4]
-	if n%4 == 0 && (n/4)%2 == 1 {
-		role = "only-child-of-an-envelope"
-	}
+	aw := AwkwardValues[n/5]
+	role := []string{"pushed", "inserted+replaced", "condition-expression", "comparand-pair", "only-child-of-an-envelope"}[n%5]
 	desc := map[string]any{"value": aw.Name, "role": role}
 	var s stackage.Stack
 	pan, msg, site := Guard(func() {
@@ -655,9 +652,34 @@ func c08RunElem(c *core.Ctx, n int) {
 			warm.IsNesting()
 			s = stackage.Or().Push("a", aw.New(), "b")
 		case "only-child-of-an-envelope":
-			s = stackage.And().Push(stackage.Or().Push(aw.New()), "sibling", stackage.And().Push(stackage.List().Push(aw.New())))
-			s.Reveal()
-			s.Defrag()
+			// the value in the structural positions the tree-walking calls look at: only child of an envelope, slot 0 next
+			// to a removable envelope, expression of a Condition in those positions, sole element of a root
+			shapes := []func() stackage.Stack{
+				func() stackage.Stack {
+					return stackage.And().Push(stackage.Or().Push(aw.New()), "sibling", stackage.And().Push(stackage.List().Push(aw.New())))
+				},
+				func() stackage.Stack { return stackage.And().Push(aw.New(), stackage.Or().Push(stackage.And().Push("x", "y"))) },
+				func() stackage.Stack {
+					return stackage.And().Push(stackage.Cond("k", stackage.Eq, aw.New()), stackage.And().Push(stackage.Or().Push("x", "y")))
+				},
+				func() stackage.Stack { return stackage.Or().Push(stackage.And().Push(stackage.Cond("k", stackage.Ne, aw.New()))) },
+				func() stackage.Stack { return stackage.Not().Push(aw.New()) },
+				func() stackage.Stack { return stackage.List().SetMutex().Push(stackage.And().Push(aw.New())) },
+				func() stackage.Stack {
+					return stackage.And().Push("lead", stackage.Or().SetParen(true).Push(aw.New()), stackage.And().Push(aw.New(), nil, aw.New()))
+				},
+			}
+			for i, mk := range shapes {
+				s = mk()
+				twin := mk()
+				for _, f := range []func(){func() { s.Reveal() }, func() { s.Defrag() }, func() { _ = s.String() }, func() { s.Unmarshal() },
+					func() { s.Traverse(0, 0, 0); s.Traverse(1, 0); s.Traverse(2, 0, 0) }, func() { s.IsEqual(twin); twin.IsEqual(s) },
+					func() { s.Transfer(stackage.Basic()) }, func() { s.Valid() }, func() { s.IsNesting() }, func() { s.Reveal().Reveal() }} {
+					if p, m, si := Guard(f); p {
+						panic(fmt.Sprintf("tree shape %d: %s (%s)", i, m, si))
+					}
+				}
+			}
 		case "inserted+replaced":
 			s = stackage.List().Push("a", "b", "c")
 			s.Insert(aw.New(), 1)
@@ -742,7 +764,7 @@ func init() {
 			c.Notes["any_methods"] = strings.Join(names, ",")
 		},
 		Rule: "index part (exhaustive): every Stack method with an int parameter (found by reflection) x index values {MinInt, MinInt+1, -Len-2..Len+2, MaxInt-1, MaxInt} (pairs for Swap/Less) x stacks of length 0..4 (quick) / 0..7 (thorough) (element 1 a nested stack) x 4 negative/forward index option sets x {capacity, none}; " +
-			"value part (exhaustive): every Stack/Condition method with an `any`/`...any` parameter (found by reflection) x a 57-entry catalogue of awkward values (untyped nil, typed nil pointers of depth 1-2 incl. to Stack/alias/Condition, zero Stack/Condition/aliases, funcs, chans, maps, NaN/Inf, private-field structs, slices/arrays, unsafe pointers ...), plus each value in four roles (pushed, inserted+replaced, condition expression/keyword, comparand pair). " +
+			"value part (exhaustive): every Stack/Condition method with an `any`/`...any` parameter (found by reflection) x a 57-entry catalogue of awkward values (untyped nil, typed nil pointers of depth 1-2 incl. to Stack/alias/Condition, zero Stack/Condition/aliases, funcs, chans, maps, NaN/Inf, private-field structs, slices/arrays, unsafe pointers ...), plus each value in five roles (pushed, inserted+replaced, condition expression/keyword, comparand pair, and seven structural positions of small trees - only child of an envelope, slot 0 next to a removable envelope, expression of a Condition in those positions, sole element of a root - under Reveal/Defrag/String/Unmarshal/Traverse/IsEqual/Transfer/Valid/IsNesting). " +
 			"Oracle: no panic; list-model verdict for Index/Remove/Replace/Swap/Insert/Traverse (failure and a byte-identical recursive snapshot when the index addresses nothing; option-mapped targets otherwise); afterwards the configuration slot is intact and a 17-step observer/maintenance battery (Index*, String, Unmarshal, IsEqual(copy), Traverse, Less, Defrag, Reveal ...) returns normally. " +
 			"non-trivial = index case with at least one index outside 0..Len-1, or any value/role case that completed all checks; distinct = hash of the case tuple.",
 		Assumptions: []string{
